@@ -24,6 +24,14 @@ def script(rng, mode, ivs, nops):
             ops.append(['ins', s, e, nid]); nid += 1; cur.append((s, e))
         elif r < 0.22:
             ops.append(['merge'])
+        elif r < 0.25:
+            ops.append(['isempty']); ops.append(['len'])
+        elif r < 0.28:
+            a, b = G.rand_iv(rng, mode, 'any'), G.rand_iv(rng, mode, 'any')
+            if cur and rng.random() < 0.5:
+                b = rng.choice(cur)
+                a = rng.choice([b, (b[0], a[1]), (a[0], b[1])])
+            ops.append(['ivcmp', [a[0], a[1], 0], [b[0], b[1], 1]])
         else:
             pts = G.points(cur, mode)
             a, b = G.rand_query(rng, pts, mode)
